@@ -470,6 +470,9 @@ func c12PackageMenu() []pkgConfig {
 		bad("extra-action", map[string]string{"g.lox": pkgLox, "user.go": pkgUserOK + "\nfunc (p *parser) on_e__3(a, b Token) any { return nil }\n"}),
 		bad("action-no-result", map[string]string{"g.lox": pkgLox, "user.go": rep("func (p *parser) on_e__2(a Token) any                 { return nil }", "func (p *parser) on_e__2(a Token) {}")}),
 		bad("action-two-results", map[string]string{"g.lox": pkgLox, "user.go": rep("func (p *parser) on_e__2(a Token) any                 { return nil }", "func (p *parser) on_e__2(a Token) (any, error) { return nil, nil }")}),
+		bad("action-returns-any-then-int", map[string]string{"g.lox": pkgLox, "user.go": rep("func (p *parser) on_e__1(a any, b Token, c Token) any { return nil }", "func (p *parser) on_e__1(a any, b Token, c Token) any { return nil }") + ""}),
+		bad("action-returns-differ-assignable", map[string]string{"g.lox": pkgLox, "user.go": rep("func (p *parser) on_e__2(a Token) any                 { return nil }", "func (p *parser) on_e__2(a Token) int { return 0 }")}),
+		bad("action-returns-differ-assignable-reversed", map[string]string{"g.lox": pkgLox, "user.go": rep("func (p *parser) on_e__1(a any, b Token, c Token) any { return nil }", "func (p *parser) on_e__1(a any, b Token, c Token) int { return 0 }")}),
 		bad("action-unknown-rule", map[string]string{"g.lox": pkgLox, "user.go": pkgUserOK + "\nfunc (p *parser) on_zzz(a Token) any { return nil }\n"}),
 		bad("action-variadic", map[string]string{"g.lox": pkgLox, "user.go": rep("func (p *parser) on_e__2(a Token) any                 { return nil }", "func (p *parser) on_e__2(a ...Token) any { return nil }")}),
 		ok("token-alias-to-struct", map[string]string{"g.lox": pkgLox, "user.go": rep("type Token struct {\n\tType int\n}\n", "type tok struct{ Type int }\n\ntype Token = tok\n")}),
